@@ -1,5 +1,8 @@
 import ArrowModel.C02.Lemmas
 import ArrowModel.C02.EqLeaf
+import ArrowModel.C02.EqBool
+import ArrowModel.C02.TakeLemmas
+import ArrowModel.C02.EqNested
 /-
 C02 — property statements.
 
@@ -56,17 +59,83 @@ example :
       ⟨.prim 4, 2, 1, some ⟨[0xfa], 1, 2, 1⟩, [[9, 9, 9, 9, 1, 0, 0, 0, 7, 7, 7, 7]], []⟩ = true := by
   decide
 
-/-- the same statement for the types `equalModel` covers but for which the proof is not done:
-checked on every generated pair by the driver (`eq=` must equal `spec=`), not proved.
-Gap: Null, Boolean (bit offsets, byte-aligned fast path), Utf8/Binary (offset rebasing,
-`lengths_equal`), and the induction over the type tree for List / FixedSizeList / Struct /
-Dictionary / RunEndEncoded.  The statement below is the proved instance restricted to a leaf
-type test `fixedLeaf`. -/
+/-- **Equality of Boolean arrays is logical equality**: for well-formed Boolean arrays made of
+bytes, `==` (`equal_nulls` + `boolean_equal` with the byte-aligned fast path, the unaligned
+`equal_bits` path and the null path) holds exactly when the arrays decode to the same column —
+whatever the bit offsets. -/
+theorem equalModel_bool_iff {a b : ArrayData} (hwa : WellFormed a) (hwb : WellFormed b)
+    (hya : BytesOk a) (hyb : BytesOk b) (ht : a.type = .bool) :
+    equalModel a b = true ↔ LogicallyEqual a b := by
+  unfold LogicallyEqual
+  by_cases hty : a.type = b.type
+  · have htb : b.type = .bool := by rw [← hty]; exact ht
+    obtain ⟨hna, hca, la, hba, hla⟩ := wf_bool hwa ht
+    obtain ⟨hnb, hcb, lb, hbb, hlb⟩ := wf_bool hwb htb
+    rw [decode_bool ht hna hca hba hla, decode_bool htb hnb hcb hbb hlb]
+    have hya' : ∀ x ∈ la, x < 256 := hya la (by rw [hba]; simp)
+    have hyb' : ∀ x ∈ lb, x < 256 := hyb lb (by rw [hbb]; simp)
+    unfold equalModel baseEqual
+    rw [ht]
+    simp only [equalValuesT]
+    by_cases hlen : a.len = b.len
+    · simp only [← ht, hty, hlen, decide_true, beq_self_eq_true, Bool.true_and, true_and, Option.some.injEq]
+      rw [← hlen, List.map_inj_left]
+      simp only [List.mem_range, boolSlot_eq_iff, Bool.and_eq_true, beq_iff_eq]
+      rw [equalNulls_iff]
+      have hbe := boolEqual_iff a b la lb 0 0 a.len hba hbb (by simpa using hla) (by simpa [hlen] using hlb) hya' hyb'
+      simp only [Nat.zero_add, Nat.add_zero] at hbe ⊢
+      rw [hbe]
+      constructor
+      · rintro ⟨⟨_, hm⟩, hf⟩ i hi
+        exact ⟨hm i hi, hf i hi⟩
+      · intro h
+        have hm : ∀ i, i < a.len → a.isValid i = b.isValid i := fun i hi => (h i hi).1
+        refine ⟨⟨?_, hm⟩, fun i hi => (h i hi).2⟩
+        rw [nullCountOf_eq hna, nullCountOf_eq hnb, ← hlen]
+        congr 1
+        apply List.filter_congr
+        intro i hi
+        rw [hm i (List.mem_range.1 hi)]
+    · constructor
+      · intro h; simp [hlen] at h
+      · rintro ⟨_, h⟩
+        have := congrArg List.length (Option.some.inj h)
+        simp at this
+        exact absurd this hlen
+  · constructor
+    · intro h; simp [equalModel, baseEqual, hty] at h
+    · rintro ⟨h, _⟩; exact absurd h hty
+
+/-- Boolean `[true, null, false]` at bit offset 0 and at bit offset 3 with garbage around it -/
+example :
+    equalModel ⟨.bool, 3, 0, some ⟨[5], 0, 3, 1⟩, [[1]], []⟩ ⟨.bool, 3, 3, some ⟨[0x2f], 3, 3, 1⟩, [[0xcf]], []⟩ = true ∧
+    logicallyEqualB ⟨.bool, 3, 0, some ⟨[5], 0, 3, 1⟩, [[1]], []⟩ ⟨.bool, 3, 3, some ⟨[0x2f], 3, 3, 1⟩, [[0xcf]], []⟩ = true := by
+  decide
+
+/-- **`==` is logical equality — what is proved so far**: well-formed arrays of any fixed-width
+type (primitives, FixedSizeBinary) or Boolean.  PARTIAL: for Null, Utf8/Binary (+Large), List,
+FixedSizeList, Struct, Dictionary and RunEndEncoded the same equivalence is checked by the driver
+on every generated pair (`eq=` must equal `spec=`, and both must equal the real `==`), not proved. -/
 theorem equalModel_iff_partial {a b : ArrayData} (hwa : WellFormed a) (hwb : WellFormed b)
-    (ht : ∃ w, a.type = .prim w ∨ a.type = .fsb w) :
+    (hya : BytesOk a) (hyb : BytesOk b)
+    (ht : (∃ w, a.type = .prim w ∨ a.type = .fsb w) ∨ a.type = .bool) :
     equalModel a b = true ↔ (a.type = b.type ∧ decode a = decode b) := by
-  obtain ⟨w, ht⟩ := ht
-  exact equalModel_fixed_iff hwa hwb ht
+  rcases ht with ⟨w, ht⟩ | ht
+  · exact equalModel_fixed_iff hwa hwb ht
+  · exact equalModel_bool_iff hwa hwb hya hyb ht
+
+/-- the three paths of `boolean_equal` on an arbitrary sub-range with arbitrary (independent) bit
+offsets of the two operands — the form in which list / struct / fixed-size-list parents call it;
+the fast-path guard (`lhs_start`, `rhs_start`, `lhs.offset()`, `rhs.offset()` all multiples of 8)
+and its byte indexing `start / 8 + offset / 8` are part of the model, so a guard that lets
+`start % 8 + offset % 8 = 8` through makes this theorem false -/
+theorem boolEqual_range (a b : ArrayData) (la lb : List Nat) (sa sb n : Nat)
+    (hba : a.buffers = [la]) (hbb : b.buffers = [lb])
+    (hla : a.offset + sa + n ≤ 8 * la.length) (hlb : b.offset + sb + n ≤ 8 * lb.length)
+    (hya : ∀ x ∈ la, x < 256) (hyb : ∀ x ∈ lb, x < 256) :
+    boolEqual a b sa sb n = true ↔
+      ∀ i, i < n → a.isValid (sa + i) = true → bitOf la (a.offset + sa + i) = bitOf lb (b.offset + sb + i) :=
+  boolEqual_iff a b la lb sa sb n hba hbb hla hlb hya hyb
 
 /-- `equal_nulls` compares validity slot by slot in all four (Some/None) combinations: a missing
 bitmap equals an all-valid bitmap (the `(Some, None)` case goes through `contains_nulls`) -/
@@ -89,6 +158,29 @@ theorem fixedEqual_range (w : Nat) (a b : ArrayData) (la lb : List Nat) (sa sb n
       ∀ i, i < n → a.isValid (sa + i) = true →
         slotBytes la w (a.offset + sa + i) = slotBytes lb w (b.offset + sb + i) :=
   fixedEqual_iff w a b la lb sa sb n hba hbb hla hlb hm
+
+/-- **`equal_range` on a fixed-width child is logical equality of the addressed rows**: for
+well-formed, decodable `a b` of a fixed-width type and any two sub-ranges `[sa, sa+n)`, `[sb, sb+n)`,
+`equal_nulls && equal_values` is true iff rows `sa..sa+n` of `decode a` equal rows `sb..sb+n` of
+`decode b`.  This is the form parents need (`RangeOK` is the induction interface for
+List / FixedSizeList / Struct / Dictionary, whose step lemmas are not proved yet). -/
+theorem equalRange_fixed_logical (w : Nat) : RangeOK (.prim w) ∧ RangeOK (.fsb w) :=
+  ⟨rangeOK_fixed w _ (Or.inl rfl), rangeOK_fixed w _ (Or.inr rfl)⟩
+
+/-- **Dictionary: `==` is NOT equality of the denoted values when the dictionary holds a null.**
+`a = keys [0]` (valid) into values `[null]`, `b = keys [null]` into values `[5]`: both are
+well-formed and denote the column `[null]`, but `equal` compares the keys' null count and
+bitmaps, so `a != b` (reproduced on the real code: corpus line `C02 eq A(d1s<p1>;1;0;-;00;…)`).
+Any theorem `equalModel ↔ decode-equality` for Dictionary therefore needs the hypothesis that
+the dictionary values contain no nulls (which is what the generator produces). -/
+theorem dict_null_value_not_logical :
+    wellFormedB ⟨.dict 1 true (.prim 1), 1, 0, none, [[0]], [⟨.prim 1, 1, 0, some ⟨[0], 0, 1, 1⟩, [[5]], []⟩]⟩ = true ∧
+    wellFormedB ⟨.dict 1 true (.prim 1), 1, 0, some ⟨[0], 0, 1, 1⟩, [[0]], [⟨.prim 1, 1, 0, none, [[5]], []⟩]⟩ = true ∧
+    logicallyEqualB ⟨.dict 1 true (.prim 1), 1, 0, none, [[0]], [⟨.prim 1, 1, 0, some ⟨[0], 0, 1, 1⟩, [[5]], []⟩]⟩
+      ⟨.dict 1 true (.prim 1), 1, 0, some ⟨[0], 0, 1, 1⟩, [[0]], [⟨.prim 1, 1, 0, none, [[5]], []⟩]⟩ = true ∧
+    equalModel ⟨.dict 1 true (.prim 1), 1, 0, none, [[0]], [⟨.prim 1, 1, 0, some ⟨[0], 0, 1, 1⟩, [[5]], []⟩]⟩
+      ⟨.dict 1 true (.prim 1), 1, 0, some ⟨[0], 0, 1, 1⟩, [[0]], [⟨.prim 1, 1, 0, none, [[5]], []⟩]⟩ = false := by
+  decide
 
 /-! ## Theorem 2 — slicing -/
 
@@ -153,6 +245,43 @@ theorem slice_congr {d₁ d₂ : ArrayData} {vs : List Val} (o l : Nat)
     (hb₁ : o + l ≤ d₁.len) (hb₂ : o + l ≤ d₂.len) :
     decode (slice d₁ o l) = decode (slice d₂ o l) := by
   rw [decode_slice o l h₁ hb₁, decode_slice o l h₂ hb₂]
+
+/-- **Physical `take` on fixed-width layouts is a function of the logical column**: decoding
+the array built by the model of `take` (gather the `w`-byte payloads — including whatever lies
+under null slots — and pack a fresh validity bitmap) gives `takeSpec idx` of the decoded input;
+an out-of-bounds index fails on both sides. -/
+theorem decode_takeFixed {d : ArrayData} {w : Nat} (hw : WellFormed d)
+    (ht : d.type = .prim w ∨ d.type = .fsb w) (idx : List Nat) :
+    (takeFixed w d idx).bind decode = (decode d).bind (takeSpec idx) :=
+  decode_takeFixed_aux hw ht idx
+
+/-- **Physical `filter` on fixed-width layouts** = `filterSpec` of the decoded column -/
+theorem decode_filterFixed {d : ArrayData} {w : Nat} (hw : WellFormed d)
+    (ht : d.type = .prim w ∨ d.type = .fsb w) (mask : List Bool) (hm : mask.length = d.len) :
+    (filterFixed w d mask).bind decode = (decode d).map (filterSpec mask) :=
+  decode_filterFixed_aux hw ht mask hm
+
+/-- **Congruence of `take`**: logically equal inputs (whatever their offsets, bitmaps, padding,
+bytes under nulls) give logically equal outputs and the same success / failure outcome -/
+theorem takeFixed_congr {d₁ d₂ : ArrayData} {w : Nat} (h₁ : WellFormed d₁) (h₂ : WellFormed d₂)
+    (t₁ : d₁.type = .prim w ∨ d₁.type = .fsb w) (t₂ : d₂.type = .prim w ∨ d₂.type = .fsb w)
+    (h : decode d₁ = decode d₂) (idx : List Nat) :
+    (takeFixed w d₁ idx).bind decode = (takeFixed w d₂ idx).bind decode := by
+  rw [decode_takeFixed h₁ t₁, decode_takeFixed h₂ t₂, h]
+
+/-- **Congruence of `filter`** -/
+theorem filterFixed_congr {d₁ d₂ : ArrayData} {w : Nat} (h₁ : WellFormed d₁) (h₂ : WellFormed d₂)
+    (t₁ : d₁.type = .prim w ∨ d₁.type = .fsb w) (t₂ : d₂.type = .prim w ∨ d₂.type = .fsb w)
+    (h : decode d₁ = decode d₂) (mask : List Bool) (m₁ : mask.length = d₁.len) (m₂ : mask.length = d₂.len) :
+    (filterFixed w d₁ mask).bind decode = (filterFixed w d₂ mask).bind decode := by
+  rw [decode_filterFixed h₁ t₁ mask m₁, decode_filterFixed h₂ t₂ mask m₂, h]
+
+/-- hypotheses are satisfiable by an Int8 array at offset 1 with a null and garbage around it;
+its decoded column is `[7, null, 9]` and `takeSpec [2, 1, 0]` of that is `[9, null, 7]` -/
+example :
+    wellFormedB ⟨.prim 1, 3, 1, some ⟨[0x0a], 1, 3, 1⟩, [[9, 7, 8, 9]], []⟩ = true ∧
+    (decode ⟨.prim 1, 3, 1, some ⟨[0x0a], 1, 3, 1⟩, [[9, 7, 8, 9]], []⟩).bind (takeSpec [2, 1, 0])
+      = some [.bytes [9], .null, .bytes [7]] := by decide
 
 /-! ## Theorem 4 — row-wise kernels commute with row selection (specification level) -/
 
